@@ -417,6 +417,14 @@ THEOREMS = {
             "JP.C17.typeddec_roundtrip_via_tree", "JP.C17.top_sem", "JP.C17.typeddec_hard_error_of_tree",
             "JP.C17.typeddec_all_unknown_no_error", "JP.C17.typeddec_last_duplicate_wins_text",
         ],
+        "JP.Props.C17typedRT": [
+            "JP.C17.typeddec_parseInt_fmtInt", "JP.C17.typeddec_parseUint_decimal", "JP.C17.typeddec_roundtrip_leaf",
+            "JP.C17.typeddec_roundtrip_leaf_reencode", "JP.C17.typeddec_roundtrip_bool", "JP.C17.typeddec_roundtrip_int",
+            "JP.C17.typeddec_roundtrip_uint", "JP.C17.typeddec_roundtrip_string", "JP.C17.typeddec_roundtrip_seq",
+            "JP.C17.typeddec_roundtrip_seq_reencode", "JP.C17.typeddec_roundtrip_ptr", "JP.C17.typeddec_roundtrip_ptr_reencode",
+            "JP.C17.typeddec_roundtrip_map", "JP.C17.typeddec_roundtrip_map_reencode", "JP.C17.typeddec_roundtrip_classes",
+            "JP.C17.typeddec_roundtrip_mapkeys", "JP.C17.typeddec_roundtrip_mapkeys_reencode",
+        ],
     },
     "C20": {
         "JP.Props.C20": [
@@ -505,7 +513,7 @@ OPEN = {
     "C15": ["tests_transparent holds outside the known-finding trigger class and for duplicate-free names (C15.counterexample_dup shows duplicates break it: outside every property's domain)"],
     "C16": [],
     "C17": ["foreign MarshalJSON/MarshalText methods and recursive types: differential testing against encoding/json only; the ENCODER and the DECODER on typed values / targets — structs, tags, embedding, maps, slices, arrays, pointers — are modelled (JP/Codec/Typed.lean, stream `typed`, JP.Props.C17typed; JP/Codec/TypedDecode.lean + TypedFold.lean, stream `typeddec`, JP.Props.C17typeddec)",
-            "typed DECODER: typeddec_no_panic_no_fuel is PROVED on ALL decodable types (JP.Props.C17typeddecNP; a TAGGED embedded pointer to an unexported struct makes the real decoder and encoding/json panic in reflect.Value.Set: outside the theorem's domain, typeddec_decodable_needed), the decoded value is a structural recursion over the parse tree of the whole text (typeddec_value_of_tree: TDec.tvalue) and the struct-member theorems are restated over that tree (…_tree; duplicates: ADJACENT members only, scalar fields of the struct itself and map entries); the saved error and its Offset are not part of the tree function (proved apart: a returned error iff TR.abort is one direction, typeddec_hard_error_of_tree; no error at all when every member name is unknown, for EVERY struct type, typeddec_all_unknown_no_error); open: typeddec_roundtripGoal (reduced to a statement about typedCst and tvalue: typeddec_roundtrip_via_tree; its unrestricted form is refuted: typeddec_roundtrip_unrestricted_false); errorContext (Struct/Field of the message) and Decoder.DisallowUnknownFields are not modelled; float-kinded fields are outside GoType (floats are modelled separately: JP/Codec/Float.lean)",
+            "typed DECODER: typeddec_no_panic_no_fuel is PROVED on ALL decodable types (JP.Props.C17typeddecNP; a TAGGED embedded pointer to an unexported struct makes the real decoder and encoding/json panic in reflect.Value.Set: outside the theorem's domain, typeddec_decodable_needed), the decoded value is a structural recursion over the parse tree of the whole text (typeddec_value_of_tree: TDec.tvalue) and the struct-member theorems are restated over that tree (…_tree; duplicates: ADJACENT members only, scalar fields of the struct itself and map entries); the saved error and its Offset are not part of the tree function (proved apart: a returned error iff TR.abort is one direction, typeddec_hard_error_of_tree; no error at all when every member name is unknown, for EVERY struct type, typeddec_all_unknown_no_error); open: typeddec_roundtripGoal (PROVED for leaf kinds, nested slices and fixed arrays, one pointer level and maps with string or integer keys: JP.Props.C17typedRT; structs open) (reduced to a statement about typedCst and tvalue: typeddec_roundtrip_via_tree; its unrestricted form is refuted: typeddec_roundtrip_unrestricted_false); errorContext (Struct/Field of the message) and Decoder.DisallowUnknownFields are not modelled; float-kinded fields are outside GoType (floats are modelled separately: JP/Codec/Float.lean)",
             "floats (JP/Codec/Float.lean, stream `float`, JP.Props.C17float): the shortest-digits search checks its own answer, so the round trip is proved by construction; that the search never gives up (17 / 9 digits always suffice, the bytes laid out are read back) IS proved (JP.Props.C17floatTotal: search_total, float_encode_none_iff' — `searchFails` is still evaluated on every generated value); that the digits are the SHORTEST ones and of these the CLOSEST to the exact value, ties to the even last digit, IS proved (JP.Props.C17floatMore: shortest_is_shortest, shortest_not_parsed_shorter, shortest_is_closest, decPoint_exact); `parseFloat` is proved to be `roundRat` on the exact fraction for every literal (shortcuts for astronomic exponents included) and `roundRat` to round to the nearest integer significand (ties to even) at the exponent of the value's binade (round_nearest_even); and that result is nearest to the value among ALL finite floats of the format (round_nearest_all, parse_nearest); monotonicity (round_monotone, round_interval, parse_monotone in the order FP.le of the exact values) and the overflow threshold (overflow_iff: range error exactly from maxFinite + ulp/2 = overflowThr on) are proved (JP.Props.C17floatMore); format_exact_nat_53 holds for every n < 2^53, and for representable integers from 2^53 up to 10^21 the goal format_exact_nat_reprGoal is REFUTED (format_exact_nat_reprGoal_false, format_nat_big_counterexample: 2^69 prints as 590295810358705700000, the shortest digits padded with zeros; what does hold there: the decimal digits of every integer float are read back exactly, parse_exact_repr_nat); literals with more than 800 significant INTEGER digits are outside the model's domain (`withinGoDigits`): there strconv.ParseFloat itself is not correctly rounded (\"1\" + 800 zeros + \"e-800\" reads as 0.1 in the fork and in encoding/json alike); float fields inside typed values (stream `typed`) are still not generated",
             "typed_escape_irrelevantGoal (equal values under both EscapeHTML settings) is refuted for `,string` fields of kind string (JP.C17.typed_escape_irrelevant_counterexample: the standard library's own behaviour); proved up to the relation escRel",
             "Decoder/Encoder streams are modelled (JP/Codec/Stream.lean) for the decoder model's target types and the encoder model's value shapes; refill's chunking is abstracted (checked by differential runs through five chunkings), messages/offsets of stream-level errors are not modelled; Encode with a NON-EMPTY prefix: the bytes are the modelled Indent (compared differentially), parse-back is proved for the empty prefix only; `syntaxStickyEveryCallGoal` is false in the real code and in encoding/json (Token/More ignore dec.err): proved for every later Decode",
